@@ -820,7 +820,7 @@ fn keygen<B: Backend>(rec: &mut Recorder, kind: &str, rng_fail: Option<(usize, b
 pub fn fresh<B: Backend>(rec: &mut Recorder, st: &mut Stats, cfg: &Cfg) {
     let mut rng = Prng::new(cfg.seed, &format!("c16p-{}", B::NAME));
     let w = world::<B>(&mut rng, 1);
-    let n = if cfg.thorough { 10000 } else { 400 };
+    let n = if cfg.thorough { 1500 } else { 400 };
     rec.emit(json!({"ev":"Reset","scenario":format!("fresh-wraps-{}", B::NAME)}));
     learn_recipients(rec, &w);
     let k = &w.locals[2];
